@@ -34,11 +34,17 @@ Proof. destruct e; [apply login_creds_wf|apply authplain_creds_wf]. Qed.
     OK implies the backend answered 200 (and the account is usable) *)
 Theorem only_200 d c b ens init : creds_wf c ->
   answer (run_creds d c b ens init) = R_OK ->
-  accepted b = true /\ ens = true /\ init = true /\ exists u p, c = Creds u p.
+  accepted b = true /\ init = true /\
+  exists u p, c = Creds u p
+    /\ ens (extract_username u) (get_user_domain d u) = bound (run_creds d c b ens init)
+    /\ bound (run_creds d c b ens init) <> None.
 Proof.
   destruct c as [u p|r]; simpl.
-  - intros _. unfold authenticate_user. destruct d; [discriminate|]. destruct (multi_at u); [discriminate|].
-    destruct (accepted b), ens, init; simpl; try discriminate. intros _. repeat split; eauto.
+  - intros _. unfold authenticate_user. destruct d as [|d0 d']; [discriminate|]. destruct (multi_at u); [discriminate|].
+    destruct (accepted b); [|discriminate].
+    destruct (ens (extract_username u) (get_user_domain (d0 :: d') u)) as [row|] eqn:En; [|discriminate].
+    destruct init; simpl; try discriminate. intros _. split; [reflexivity|]. split; [reflexivity|].
+    exists u, p. split; [reflexivity|]. split; [exact En|discriminate].
   - intros W ->. contradiction.
 Qed.
 
@@ -63,6 +69,16 @@ Lemma authplain_direct au tls data : au = true \/ tls = false ->
 Proof.
   intros H. unfold authplain_creds. destruct au; [eexists; split; [reflexivity|discriminate]|].
   destruct H as [H | ->]; [discriminate|]. eexists; split; [reflexivity|discriminate].
+Qed.
+
+(** the session is bound to exactly the row EnsureUserAndMailboxes returned *)
+Theorem binds_what_ensure_returns d u p b ens init :
+  answer (authenticate_user d u p b ens init) = R_OK ->
+  bound (authenticate_user d u p b ens init) = ens (extract_username u) (get_user_domain d u).
+Proof.
+  intros H.
+  destruct (only_200 d (Creds u p) b ens init I H) as (_ & _ & u' & p' & E & B & _).
+  injection E as <- <-. symmetry. exact B.
 Qed.
 
 (** (e): nothing is sent to the backend from a connection without TLS *)
@@ -95,16 +111,19 @@ Qed.
 (** the property for one attempt with supplied (u, p), every default domain,
     every backend outcome; [in_domain]: address and password are valid UTF-8 *)
 Theorem imap_attempt_spec d u p b ens init :
+  ensure_sound ens ->
   in_domain d u p = true ->
   imap_spec d u p (accepted b) (authenticate_user d u p b ens init).
 Proof.
-  intros C. unfold in_domain in C. apply andb_true_iff in C as [C1 C2].
+  intros ES C. unfold in_domain in C. apply andb_true_iff in C as [C1 C2].
   assert (Hd : d = [] \/ d <> []) by (destruct d; [now left|right; discriminate]).
   unfold imap_spec, authenticate_user. destruct Hd as [->|Hd]; [reflexivity|].
   destruct d as [|d0 d'] eqn:Ed; [congruence|]. rewrite <- Ed in *. clear Ed.
   destruct (multi_at u) eqn:M; [reflexivity|].
   assert (C3 : count_byte u AT <= 1) by (unfold multi_at in M; apply Nat.ltb_ge in M; exact M).
-  destruct (accepted b); [|reflexivity]. destruct ens; [|reflexivity]. destruct init; [|reflexivity].
+  destruct (accepted b); [|reflexivity].
+  destruct (ens (extract_username u) (get_user_domain d u)) as [row|] eqn:En; [|reflexivity].
+  apply ES in En. subst row. destruct init; [|reflexivity].
   simpl. split; [reflexivity|]. split.
   - eexists; split; [reflexivity|]. rewrite <- address_of_email. now apply body_exact_valid.
   - eexists; split; [reflexivity|]. now apply bound_identity.
@@ -162,24 +181,25 @@ Proof.
   unfold run_session. destruct (session_inv l (mk_sess false None) eq_refl) as [[E _]|(a & I & O & E)].
   - left. rewrite E. split; reflexivity.
   - right. unfold run_attempt in O.
-    destruct (only_200 _ _ _ _ _ (entry_creds_wf false (a_entry a)) O) as (A & _ & N & u & p & C).
+    destruct (only_200 _ _ _ _ _ (entry_creds_wf false (a_entry a)) O) as (A & N & u & p & C & _ & _).
     exists a, u, p. rewrite E. repeat split; auto.
 Qed.
 
 (** ... and when no attempt falls into a finding class, the store is the one
     of the address that attempt supplied, which the backend saw verbatim *)
 Theorem session_bound_exact l :
+  (forall a, In a l -> ensure_sound (a_ens a)) ->
   (forall a u p, In a l -> entry_creds false (a_entry a) = Creds u p -> in_domain (a_domain a) u p = true) ->
   forall row, who (run_session l) = Some row ->
   exists a u p, In a l /\ entry_creds false (a_entry a) = Creds u p /\ accepted (a_backend a) = true
     /\ store_of (address_of (a_domain a) u) row
     /\ exists body, sent (run_attempt false a) = [body] /\ body_exact body (address_of (a_domain a) u) p.
 Proof.
-  intros K row Hrow.
+  intros ES K row Hrow.
   destruct (session_only_200 l) as [[_ N]|(a & u & p & I & C & A & N & _ & Hw)].
   - rewrite N in Hrow. discriminate.
   - exists a, u, p.
-    pose proof (imap_attempt_spec (a_domain a) u p (a_backend a) (a_ens a) (a_init a) (K a u p I C)) as S.
+    pose proof (imap_attempt_spec (a_domain a) u p (a_backend a) (a_ens a) (a_init a) (ES a I) (K a u p I C)) as S.
     unfold imap_spec in S. rewrite Hw in Hrow. unfold run_attempt, run_creds in *. rewrite C in *.
     destruct (answer _) eqn:An; try (rewrite S in Hrow; discriminate).
     destruct S as (_ & Bd & row' & B & St). rewrite B in Hrow. injection Hrow as <-.
